@@ -6,6 +6,7 @@ package dec16
 
 import (
 	"encoding/binary"
+	"errors"
 	"fmt"
 	"hash/crc32"
 	"math"
@@ -113,6 +114,9 @@ type Result struct {
 	// VecDocs: vector field -> doc number -> number of vectors listed in the id->doc table
 	VecDocs map[string]map[uint64]int
 	OneHit  map[string]bool // "field/term" entries using the single-hit encoding
+	// Deviations from the documented layout that the decoder recognised and stepped over
+	// (so that the rest of the file is still decoded and compared)
+	Deviations []string
 }
 
 // chunkSize is the documented chunk-size rule.
@@ -531,6 +535,9 @@ func (f *file) decodeDocValues(res *Result, name string, start, end uint64) erro
 	return nil
 }
 
+// ErrNoEntryCount: a thesaurus block without the documented entry count (see decodeThesaurus).
+var ErrNoEntryCount = errors.New("thesaurus block without entries has no NST count (documented: VL | VD | NST | entries)")
+
 func (f *file) decodeThesaurus(res *Result, name string, addr uint64) error {
 	c := res.Content
 	r := &reader{b: f.mem, pos: addr}
@@ -551,8 +558,17 @@ func (f *file) decodeThesaurus(res *Result, name string, addr uint64) error {
 		return fmt.Errorf("vellum: %v", err)
 	}
 	terms := map[uint32]string{}
-	if fst.Len() > 0 {
+	{
+		// zap.md: | VL | VD | NST | {TID | TL | Term} x NST |  - the count is part of the block
 		nst := tr.uvarint()
+		if fst.Len() == 0 && nst == math.MaxUint64 {
+			// KNOWN FINDING: the writer leaves the count out when the term table is empty (a
+			// thesaurus that lost all its definitions in a merge); what is read here is the
+			// first varint of the record that follows (doc-value start = "not uninverted").
+			// Recorded, and the block is taken as empty so that the rest is still decoded.
+			res.Deviations = append(res.Deviations, fmt.Sprintf("thesaurus %q: %v", name, ErrNoEntryCount))
+			nst = 0
+		}
 		for i := uint64(0); i < nst && tr.err == nil; i++ {
 			tid := tr.uvarint()
 			tl := tr.uvarint()
